@@ -56,6 +56,28 @@ def with_hints(fn):
         lib.run_model = orig
 
 
+def replay_with_hints(cfg, path):
+    """./check replay <Cxx> <file> for the `schema` engine: the model needs the harness' hints"""
+    ok, out, _, dv = lib.cargo_build(cfg.harness_pkg)
+    if not ok:
+        print(out); return 2
+    work = os.path.join(lib.OUT, "work", cfg.prop + "_replay"); os.makedirs(work, exist_ok=True)
+    ops = lib.read_lines(path)
+    if path.endswith(".txt"):
+        print("\n".join(ops[:6]))
+        ops = ops[ops.index("ops:") + 1:] if "ops:" in ops else []
+    if not ops: return 0
+    lib.lean_build(list(cfg.lean_targets), cfg.prop_module)
+    impl, mod = with_hints(lambda: engine._run_case_files(cfg, dv, lib.model_bin(cfg.model_exe), work, ops, "r"))
+    for i, o in enumerate(ops):
+        print("%s\n   impl:  %s\n   model: %s" % (o[:200], (impl[i] if i < len(impl) else "-")[:400], (mod[i] if mod and i < len(mod) else "-")[:400]))
+    for cops, couts in lib.split_cases(ops, impl):
+        for sig, d in cfg.oracle(cops, couts): print("ORACLE %s: %s" % (sig, d))
+    for ci, v in engine._rust_oracle(os.path.join(work, "shrink_r.ops.impl")).items():
+        for sig, d in v: print("ORACLE(case %d) %s: %s" % (ci, sig, d))
+    return 0
+
+
 # ----------------------------------------------------------------------------- parsing observations
 def kv(line):
     t = line.split()
@@ -196,22 +218,7 @@ class C15(Cfg):
         return with_hints(lambda: engine.run(self, tier, seed))
 
     def replay(self, path):
-        ok, out, _, dv = lib.cargo_build(self.harness_pkg)
-        if not ok:
-            print(out); return 2
-        work = os.path.join(lib.OUT, "work", self.prop + "_replay"); os.makedirs(work, exist_ok=True)
-        ops = lib.read_lines(path)
-        if path.endswith(".txt"):
-            print("\n".join(ops[:6]))
-            ops = ops[ops.index("ops:") + 1:] if "ops:" in ops else []
-        if not ops: return 0
-        lib.lean_build(list(self.lean_targets), self.prop_module)
-        impl, mod = with_hints(lambda: engine._run_case_files(self, dv, lib.model_bin(self.model_exe), work, ops, "r"))
-        for i, o in enumerate(ops):
-            print("%s\n   impl:  %s\n   model: %s" % (o, impl[i] if i < len(impl) else "-", mod[i] if mod and i < len(mod) else "-"))
-        for cops, couts in lib.split_cases(ops, impl):
-            for sig, d in self.oracle(cops, couts): print("ORACLE %s: %s" % (sig, d))
-        return 0
+        return replay_with_hints(self, path)
 
     def streams(self, tier, seed, work, dv):
         res = []
